@@ -9,12 +9,14 @@ import (
 	"bytes"
 	"encoding/json"
 	"fmt"
+	"go/token"
 	"os"
 	"os/exec"
 	"path/filepath"
 	"regexp"
 	"sort"
 	"strings"
+	"time"
 
 	"github.com/goose-lang/goose"
 
@@ -26,7 +28,11 @@ import (
 type TrPlan struct {
 	// Binary: run the instrumented cmd/goose binary itself (whole-binary
 	// simulation) instead of calling TranslatePackages through the API.
-	Binary       bool     `json:"binary,omitempty"`
+	Binary bool `json:"binary,omitempty"`
+	// PriorOut (binary runs): the output directory already holds the files of
+	// an earlier run, "longer" (the earlier output followed by more text) or
+	// "same"; the result must not depend on it.
+	PriorOut     string   `json:"prior_out,omitempty"`
 	IgnoreErrors bool     `json:"ignore_errors,omitempty"`
 	Module       string   `json:"module"` // repo | scratch
 	Patterns     []string `json:"patterns"`
@@ -68,18 +74,40 @@ func setupScratch() error {
 	if scratchDir != "" {
 		return nil
 	}
-	d, err := os.MkdirTemp(".", "scratch-")
-	if err != nil {
-		return err
+	// one scratch module per check run, shared by all workers (goldens are
+	// shared too, and outputs embed absolute source paths)
+	base := os.Getenv("VERIF_C06_GOLDEN")
+	if base == "" {
+		base = "."
 	}
-	d, _ = filepath.Abs(d)
+	d, _ := filepath.Abs(filepath.Join(base, "scratch"))
+	creator := os.Mkdir(d, 0755) == nil
+	if !creator {
+		for i := 0; i < 600; i++ {
+			if _, err := os.Stat(filepath.Join(d, ".ready")); err == nil {
+				break
+			}
+			time.Sleep(100 * time.Millisecond)
+		}
+		if _, err := os.Stat(filepath.Join(d, ".ready")); err != nil {
+			return fmt.Errorf("scratch module was not prepared by the first worker")
+		}
+	}
+	// only the creating worker writes; the others just derive the pattern list
+	writeFile := func(path string, data []byte) error {
+		if !creator {
+			return nil
+		}
+		os.MkdirAll(filepath.Dir(path), 0755)
+		return os.WriteFile(path, data, 0644)
+	}
 	repo := repoDir()
 	mod := fmt.Sprintf("module vscratch\n\ngo 1.22\n\nrequire (\n\tgithub.com/goose-lang/goose v0.0.0\n\tgithub.com/tchajed/marshal v0.6.1\n)\n\nreplace github.com/goose-lang/goose => %s\n", repo)
-	if err := os.WriteFile(filepath.Join(d, "go.mod"), []byte(mod), 0644); err != nil {
+	if err := writeFile(filepath.Join(d, "go.mod"), []byte(mod)); err != nil {
 		return err
 	}
 	sum, _ := os.ReadFile(filepath.Join(repo, "go.sum"))
-	os.WriteFile(filepath.Join(d, "go.sum"), sum, 0644)
+	writeFile(filepath.Join(d, "go.sum"), sum)
 	neg, err := os.ReadDir(filepath.Join(repo, "testdata/negative-tests"))
 	if err != nil {
 		return err
@@ -93,8 +121,7 @@ func setupScratch() error {
 		if err != nil {
 			return err
 		}
-		os.MkdirAll(filepath.Join(d, "neg", name), 0755)
-		os.WriteFile(filepath.Join(d, "neg", name, e.Name()), src, 0644)
+		writeFile(filepath.Join(d, "neg", name, e.Name()), src)
 		scratchPatterns = append(scratchPatterns, "./neg/"+name)
 	}
 	for _, g := range []string{"append_log", "logging2", "comments"} {
@@ -102,24 +129,25 @@ func setupScratch() error {
 		if err != nil {
 			continue
 		}
-		os.MkdirAll(filepath.Join(d, "good", g), 0755)
 		for _, e := range ents {
 			if strings.HasSuffix(e.Name(), ".go") && !strings.HasSuffix(e.Name(), "_test.go") {
 				src, _ := os.ReadFile(filepath.Join(repo, "internal/examples", g, e.Name()))
-				os.WriteFile(filepath.Join(d, "good", g, e.Name()), src, 0644)
+				writeFile(filepath.Join(d, "good", g, e.Name()), src)
 			}
 		}
 		scratchPatterns = append(scratchPatterns, "./good/"+g)
 	}
 	for name, files := range synthPackages {
-		os.MkdirAll(filepath.Join(d, "synth", name), 0755)
 		for fn, src := range files {
-			os.WriteFile(filepath.Join(d, "synth", name, fn), []byte(src), 0644)
+			writeFile(filepath.Join(d, "synth", name, fn), []byte(src))
 		}
 		scratchPatterns = append(scratchPatterns, "./synth/"+name)
 	}
 	sort.Strings(scratchPatterns)
 	scratchDir = d
+	if creator {
+		os.WriteFile(filepath.Join(d, ".ready"), []byte("ok"), 0644)
+	}
 	simpackages.SetUniverse(d, scratchPatterns)
 	simpackages.SetUniverse(repoDir(), repoPatterns)
 	return nil
@@ -164,6 +192,51 @@ func fineC(x uint64) uint64 { return fineA(x) * 2 }
 
 type twoConds struct {
 	a chan uint64
+}
+`},
+	// a struct used by its defining package and by an importing package that
+	// are translated together (they share the type checker's objects)
+	"item": {"item.go": `package item
+
+type Item struct {
+	Id    uint64
+	Count uint64
+}
+
+func New(id uint64) *Item {
+	return &Item{Id: id, Count: 1}
+}
+
+func (it *Item) Bump() {
+	it.Count = it.Count + 1
+}
+
+func Total(a Item, b Item) uint64 {
+	return a.Count + b.Count
+}
+`},
+	"cart": {"cart.go": `package cart
+
+import "vscratch/synth/item"
+
+type Cart struct {
+	first *item.Item
+	n     uint64
+}
+
+func Add(c *Cart, id uint64) {
+	it := item.New(id)
+	it.Bump()
+	c.first = it
+	c.n = c.n + it.Count
+}
+
+func Peek(c *Cart) uint64 {
+	return c.first.Id + c.first.Count
+}
+
+func Fresh() item.Item {
+	return item.Item{Id: 7, Count: 0}
 }
 `},
 	// an FFI reached only through another (non-FFI) package that several
@@ -329,19 +402,70 @@ type goldenKey struct {
 
 var golden = map[goldenKey]trResult{}
 
+// goldenFor: the reference result for one package and flag combination is
+// produced by a FRESH PROCESS (the instrumented cmd/goose on the sequential
+// schedule, that package alone, -ignore-errors so that partial output is
+// written too) and shared between workers through files. A golden computed in
+// this process would inherit whatever package-level state earlier translations
+// left behind and so could not expose it.
 func goldenFor(p *TrPlan, pattern string) (trResult, string) {
 	k := goldenKey{p.Module, pattern, [3]bool{p.TypeCheck, p.SrcComments, p.SkipIfaces}}
 	if g, ok := golden[k]; ok {
 		return g, ""
 	}
+	modDir := repoDir()
+	if p.Module == "scratch" {
+		modDir = scratchDir
+	}
+	// the package path, from the loader (no translation involved)
+	// (same mode as goose's own loader configuration: the loads are memoised per directory)
+	mode := simpackages.NeedName | simpackages.NeedCompiledGoFiles | simpackages.NeedImports | simpackages.NeedTypes | simpackages.NeedSyntax | simpackages.NeedTypesInfo
+	pkgs, err := simpackages.Load(&simpackages.Config{Dir: modDir, Mode: mode, BuildFlags: []string{"-tags", "goose"}, Fset: token.NewFileSet()}, pattern)
+	if err != nil || len(pkgs) != 1 {
+		return trResult{}, fmt.Sprintf("golden: cannot load %s: %v", pattern, err)
+	}
+	g := trResult{pkgPath: pkgs[0].PkgPath}
+	if os.Getenv("VERIF_C06_GOOSE") == "" {
+		return trResult{}, "golden: VERIF_C06_GOOSE is not set"
+	}
+	cacheDir := os.Getenv("VERIF_C06_GOLDEN")
+	if cacheDir == "" {
+		cacheDir = "."
+	}
+	keyStr := fmt.Sprintf("%s|%s|%v", p.Module, pattern, k.flags)
+	cacheFile := filepath.Join(cacheDir, fmt.Sprintf("golden-%016x.json", simrt.HashString(keyStr)))
+	type cached struct {
+		Key, Text, Err string
+	}
+	if b, err := os.ReadFile(cacheFile); err == nil {
+		var c cached
+		if json.Unmarshal(b, &c) == nil && c.Key == keyStr {
+			g.text, g.err = c.Text, c.Err
+			golden[k] = g
+			return g, ""
+		}
+	}
 	q := *p
 	q.Patterns = []string{pattern}
-	rs, _, perr, res, panics, _ := translate(&q, simrt.Replay(nil, nil), false)
-	if perr != "" || len(panics) > 0 || res.Outcome != simrt.Completed || len(rs) != 1 {
-		return trResult{}, fmt.Sprintf("golden translation of %s failed: outcome=%v patternErr=%q panics=%v results=%d", pattern, res.Outcome, perr, panics, len(rs))
+	q.Binary, q.IgnoreErrors, q.PriorOut, q.FileOrderSeed = true, true, "", 0
+	r := runGooseBinary(&q, simrt.MainTape{}, nil)
+	if r.infra != "" {
+		return trResult{}, "golden (fresh process) of " + pattern + ": " + r.infra
 	}
-	golden[k] = rs[0]
-	return rs[0], ""
+	if len(r.files) != 1 || (r.exit != 0 && r.exit != 1) {
+		return trResult{}, fmt.Sprintf("golden (fresh process) of %s: exit %d, %d files, stderr %s", pattern, r.exit, len(r.files), clipStr(r.stderr))
+	}
+	for _, content := range r.files {
+		g.text = content
+	}
+	g.err = strings.TrimSuffix(r.stderr, "\n")
+	cb, _ := json.Marshal(cached{keyStr, g.text, g.err})
+	tmp := fmt.Sprintf("%s.%d", cacheFile, os.Getpid())
+	if os.WriteFile(tmp, cb, 0644) == nil {
+		os.Rename(tmp, cacheFile)
+	}
+	golden[k] = g
+	return g, ""
 }
 
 type c06 struct{}
@@ -390,6 +514,35 @@ func (c06) Gen(rng *simrt.Rand, tier string, run int) interface{} {
 	for i := 0; i < n && i < len(pool); i++ {
 		p.Patterns = append(p.Patterns, pool[perm[i]])
 	}
+	if p.Module == "scratch" && rng.Chance(1, 4) {
+		// related packages translated together (shared types, shared imports)
+		group := [][]string{{"./synth/item", "./synth/cart"}, {"./synth/cart", "./synth/item"}, {"./synth/ffiapp1", "./synth/ffiapp2"},
+			{"./synth/ffistore", "./synth/ffiapp2", "./synth/ffiapp1"}, {"./synth/multi", "./synth/fwd", "./synth/errs2"}}[rng.Intn(5)]
+		p.Patterns = append(append([]string{}, group...), p.Patterns[:rng.Intn(len(p.Patterns)+1)]...)
+		seen := map[string]bool{}
+		var uniq []string
+		for _, x := range p.Patterns {
+			if !seen[x] {
+				seen[x] = true
+				uniq = append(uniq, x)
+			}
+		}
+		p.Patterns = uniq
+	} else if p.Module == "repo" && rng.Chance(1, 6) {
+		p.Patterns = append([]string{"./internal/examples/trust_import", "./internal/examples/trust_import/trusted_example"}, p.Patterns...)
+		if len(p.Patterns) > 4 {
+			p.Patterns = p.Patterns[:4]
+		}
+		seen := map[string]bool{}
+		var uniq []string
+		for _, x := range p.Patterns {
+			if !seen[x] {
+				seen[x] = true
+				uniq = append(uniq, x)
+			}
+		}
+		p.Patterns = uniq
+	}
 	if rng.Chance(1, 6) && len(p.Patterns) > 1 {
 		// a repeated pattern
 		p.Patterns = append(p.Patterns, p.Patterns[0])
@@ -410,6 +563,7 @@ func (c06) Gen(rng *simrt.Rand, tier string, run int) interface{} {
 	if run%16 == 5 && os.Getenv("VERIF_C06_GOOSE") != "" {
 		p.Binary = true
 		p.IgnoreErrors = rng.Chance(1, 3)
+		p.PriorOut = rng.PickStr("", "", "longer", "same")
 		if len(p.Patterns) > 4 {
 			p.Patterns = p.Patterns[:4]
 		}
@@ -572,7 +726,7 @@ type binResult struct {
 
 var ansi = regexp.MustCompile("\x1b\\[[0-9;]*m")
 
-func runGooseBinary(p *TrPlan, mt simrt.MainTape) binResult {
+func runGooseBinary(p *TrPlan, mt simrt.MainTape, prior map[string]string) binResult {
 	var r binResult
 	work, err := os.MkdirTemp(".", "bin-")
 	if err != nil {
@@ -588,6 +742,10 @@ func runGooseBinary(p *TrPlan, mt simrt.MainTape) binResult {
 	modDir := repoDir()
 	if p.Module == "scratch" {
 		modDir = scratchDir
+	}
+	for rel, content := range prior {
+		os.MkdirAll(filepath.Dir(filepath.Join(work, "out", rel)), 0755)
+		os.WriteFile(filepath.Join(work, "out", rel), []byte(content), 0644)
 	}
 	args := []string{"-out", filepath.Join(work, "out"), "-dir", modDir}
 	if p.TypeCheck {
@@ -640,10 +798,12 @@ var binGolden = map[string]binResult{}
 
 func execBinary(p *TrPlan, tape *simrt.Tape, keepLog bool) harness.RunOut {
 	out := harness.RunOut{Probes: map[string]int{"binary_runs": 1}, Faults: map[string]int{}}
-	key, _ := json.Marshal(p)
+	pk := *p
+	pk.PriorOut = ""
+	key, _ := json.Marshal(pk)
 	g, ok := binGolden[string(key)]
 	if !ok {
-		g = runGooseBinary(p, simrt.MainTape{}) // empty tape: the sequential schedule
+		g = runGooseBinary(p, simrt.MainTape{}, nil) // empty tape: the sequential schedule, empty output directory
 		if g.infra != "" {
 			out.Infra = "golden run: " + g.infra
 			return out
@@ -654,7 +814,18 @@ func execBinary(p *TrPlan, tape *simrt.Tape, keepLog bool) harness.RunOut {
 	if tape.Rng != nil {
 		mt.Seed = tape.Rng.Uint64() | 1
 	}
-	r := runGooseBinary(p, mt)
+	var prior map[string]string
+	if p.PriorOut != "" {
+		prior = map[string]string{}
+		for rel, content := range g.files {
+			if p.PriorOut == "longer" {
+				content += "\n(* stale tail of an earlier, longer output *)\nDefinition stale_leftover: val := #().\n"
+			}
+			prior[rel] = content
+		}
+		out.Probes["binary_prior_output_"+p.PriorOut]++
+	}
+	r := runGooseBinary(p, mt, prior)
 	if r.infra != "" {
 		out.Infra = r.infra
 		return out
